@@ -4,6 +4,7 @@ FIXED_EXTRA = [
  ('C14', 'builds a hierarchical log-posterior for a single individual', 'ProblemModellingController.get_log_posterior with a population model and a one-individual dataset raises TypeError (bare LogLikelihood handed to HierarchicalLogLikelihood)'),
  ('C18', 'removes pooled and heterogeneous dimensions by get_special_dims', 'HierarchicalLogPosterior.sample_initial_parameters finds special dimensions by isinstance: Covariate(Pooled/Heterogeneous) sub-models are not removed and the initial points cannot be assembled (broadcast ValueError)'),
  ('C18', 'accepts posteriors without individual dimension', 'compute_pointwise_loglikelihood raises AttributeError on the (chain, draw) dataset SamplingController returns for an individual LogPosterior'),
+ ('C07', 'sorts the selected parameters with a stable sort', 'CovariateModel.set_population_parameters orders the selected (parameter, dimension) pairs with an unstable sort: for 9 selected pairs (default selection of Heterogeneous(n_dim=3, n_ids=3)) the order is not the flattened order of the population parameters'),
 ]
 OPEN = [
  {'property': 'C06', 'key': 'C06|CMG sampler adds two independent variates',
